@@ -62,8 +62,8 @@ func TestWriteF14Witness(t *testing.T) {
 	st := e.Pair.Probe(c.Reqs[0], "PUT")
 	b, _ := json.MarshalIndent(map[string]interface{}{"property": "C09", "finding": "F14", "violation": map[string]interface{}{
 		"kind": "counterexample", "class": "Spec.severalRootsMatch",
-		"what":  fmt.Sprintf("preflight OPTIONS /a/b/x asking for PUT on computed methods is granted although PUT /a/b/x is answered %d (strict reading of 'methods routable at that URL')", st),
-		"case":  []string{e.Line}, "human": c.Human(e.Obs), "real": c09Real(e.Obs[0]), "model": c09Model(e.Ans[0])}}, "", " ")
+		"what": fmt.Sprintf("preflight OPTIONS /a/b/x asking for PUT on computed methods is granted although PUT /a/b/x is answered %d (strict reading of 'methods routable at that URL')", st),
+		"case": []string{e.Line}, "human": c.Human(e.Obs), "real": c09Real(e.Obs[0]), "model": c09Model(e.Ans[0])}}, "", " ")
 	if err := os.WriteFile(path, b, 0o644); err != nil {
 		t.Fatal(err)
 	}
